@@ -1,11 +1,14 @@
 package busexec
 
 import (
+	"bytes"
 	"context"
+	"encoding/json"
 	"errors"
 	"runtime"
 	"strings"
 	"sync"
+	"time"
 
 	"github.com/google/uuid"
 
@@ -141,6 +144,9 @@ func faultHook(ev sqlwrap.Event) error {
 	holdHook(ev)
 	switch ev.Kind {
 	case sqlwrap.Begin, sqlwrap.Exec, sqlwrap.Query, sqlwrap.Commit:
+	case sqlwrap.StmtDone:
+		// only the cancellation driver uses the points BETWEEN statements ("cancelled after the last
+		// statement, before the commit")
 	default:
 		return nil
 	}
@@ -151,7 +157,7 @@ func faultHook(ev sqlwrap.Event) error {
 	f := v.(*faulter)
 	f.mu.Lock()
 	defer f.mu.Unlock()
-	if f.k == 0 {
+	if f.k == 0 || (ev.Kind == sqlwrap.StmtDone && f.mode != "cancel") {
 		return nil
 	}
 	f.n++
@@ -165,6 +171,13 @@ func faultHook(ev sqlwrap.Event) error {
 		// itself proceeds; the code notices the cancellation at its next step.
 		if !world.CancelServerRequest(ev.Actor) && f.cancel != nil {
 			f.cancel()
+		}
+		if ev.Kind == sqlwrap.StmtDone {
+			// give database/sql the time to roll the transaction back on its own, so that the code's
+			// next step (another statement, or the commit) meets a finished transaction
+			f.mu.Unlock()
+			time.Sleep(15 * time.Millisecond)
+			f.mu.Lock()
 		}
 		return nil
 	}
@@ -287,7 +300,23 @@ func (e *Exec) faultedAttempts(ctx context.Context, st Step) error {
 		ev := e.lastEv
 		if e.FaultMode == "cancel" && (ev["code"] == "OK") {
 			// the cancellation arrived after the point of no return (typically at
-			// the commit): the operation completed and says so. That is the real run.
+			// the commit): the operation completed and says so. That is the real run - and it
+			// must then BE the complete effect: the event is marked, so that any contract clause
+			// it violates is also reported as a C09 violation (answered OK, but not done)
+			tail := append([]byte{}, e.Out.Bytes()[mark:]...)
+			lines := bytes.Split(bytes.TrimRight(tail, "\n"), []byte("\n"))
+			if n := len(lines); n > 0 {
+				var last map[string]any
+				if json.Unmarshal(lines[n-1], &last) == nil {
+					last["afterCancel"] = string(kind)
+					if b, err := json.Marshal(last); err == nil {
+						lines[n-1] = b
+						e.Out.Truncate(mark)
+						e.Out.Write(bytes.Join(lines, []byte("\n")))
+						e.Out.WriteByte('\n')
+					}
+				}
+			}
 			return nil
 		}
 		// discard the buffered normal event of the faulted attempt
